@@ -5,7 +5,8 @@
     from NewSentPacketHandler; calls that violate the API contract ([op_valid]) are not executed. *)
 From Coq Require Import List ZArith Bool.
 From V Require Import Gen.Params SentPH.Model SentPH.ProofsHist SentPH.ProofsBase SentPH.ProofsOps2 SentPH.ProofsMain
-  SentPH.ProofsAckRules SentPH.ProofsTimer SentPH.ProofsSkipped.
+  SentPH.ProofsAckRules SentPH.ProofsTimer SentPH.ProofsSkipped SentPH.ProofsScalars.
+From V Require Congestion.Model.
 Import ListNotations.
 Open Scope Z_scope.
 
@@ -169,3 +170,82 @@ Example C06_exactly_once_nonvacuous :
   H = [1; 2] /\ D = [] /\ tracked_ids st = [] /\ sCbs st = [(1, false); (2, true)] /\ sBif st = 0.
 Proof. exact exactly_once_nonvacuous. Qed.
 Print Assumptions C06_exactly_once_nonvacuous.
+
+(** ---- Round 3: cross-property theorems at full-handler level ---- *)
+
+(** (C20) The handler's SendMode IS the Congestion unit's decision function on the gate read from the handler
+    state, when the congestion controller's CanSend answer is (bytesInFlight < cw) for the window cw it reports. *)
+Theorem C06_send_mode_is_gate : forall st cw hb,
+  sendMode st (sBif st <? cw) hb =
+  V.Congestion.Model.send_mode
+    (V.Congestion.Model.G (tracked_count st) (isAmplificationLimited st) (sProbes st) (sPtoM st) (sBif st) cw hb).
+Proof. exact sendMode_is_gate. Qed.
+Print Assumptions C06_send_mode_is_gate.
+
+(** (C20) In every reachable state: SendMode = SendAny (with a consistent congestion oracle reporting window cw)
+    implies bytesInFlight < cw, not amplification-limited, fewer tracked packets than both caps, no probe owed,
+    pacing budget; bytesInFlight is exactly the sum of the tracked in-flight packets; and any packet SentPacket
+    accepts next leaves bytesInFlight < cw + its size (= bytesInFlight + size for ack-eliciting non-probe packets). *)
+Theorem C06_send_gate_history : forall client validated ipn period maxPeriod rnd0 ops cw hb,
+  0 <= ipn ->
+  let st := run (init client validated ipn period maxPeriod rnd0) ops in
+  sendMode st (sBif st <? cw) hb = sph_SendAny ->
+  sBif st < cw /\ isAmplificationLimited st = false /\
+  tracked_count st < sph_MaxOutstandingSentPackets /\ tracked_count st < sph_MaxTrackedSentPackets /\
+  sProbes st <= 0 /\ hb = true /\
+  sBif st = msum f_incl (pk st SI) + msum f_incl (pk st SH) + msum f_incl (pk st SA) /\
+  (forall l t la sfs fs size mtu probe rnd orc,
+     op_valid st (OSend l t la sfs fs size mtu probe rnd) = true ->
+     let st' := fst (step st (OSend l t la sfs fs size mtu probe rnd, orc)) in
+     sBif st' = sBif st + (if negb probe && (negb (isnil sfs) || negb (isnil fs)) then size else 0) /\ sBif st' < cw + size).
+Proof. exact send_gate_history. Qed.
+Print Assumptions C06_send_gate_history.
+
+Example C06_send_gate_nonvacuous :
+  let st := run (init false true 0 256 131072 100)
+                [ (ODrop 1 1000000000, w_orc); (ODrop 2 1000000000, w_orc); (OSend 4 1000000000 (-1) [] [1] 1200 false false 0, w_orc) ] in
+  sendMode st (sBif st <? 40960) true = sph_SendAny /\ sBif st = 1200 /\
+  sBif (fst (step st (OSend 4 1000000001 (-1) [] [2] 1452 false false 0, w_orc))) = 2652.
+Proof. exact send_gate_nonvacuous. Qed.
+Print Assumptions C06_send_gate_nonvacuous.
+
+(** (C14) Anti-amplification through the whole handler: in every server history in which SentPacket is only
+    called when some SendMode answer is not SendNone ([gated]), while the peer address is not validated
+    bytesSent <= 3 * bytesReceived + (size of the last packet sent). *)
+Theorem C06_amplification_history : forall validated ipn period maxPeriod rnd0 ops,
+  0 <= ipn ->
+  let i := init false validated ipn period maxPeriod rnd0 in
+  gated i ops ->
+  sPAV (run i ops) = false ->
+  sSent (run i ops) <= sph_amplificationFactor * sRecv (run i ops) + last_size i ops 0.
+Proof. exact amplification_history. Qed.
+Print Assumptions C06_amplification_history.
+
+Example C06_amplification_nonvacuous :
+  let i := init false false 0 256 131072 100 in
+  gated i amp_ops /\ sPAV (run i amp_ops) = false /\
+  sSent (run i amp_ops) = 3652 /\ sRecv (run i amp_ops) = 1200 /\ last_size i amp_ops 0 = 1252 /\
+  isAmplificationLimited (run i amp_ops) = true.
+Proof. exact amplification_nonvacuous. Qed.
+Print Assumptions C06_amplification_nonvacuous.
+
+(** (d, second half) The client's anti-deadlock arm: in every client history whose events carry positive times,
+    while the client has not seen the server complete address validation and a packet was accepted by SentPacket
+    since the start or since the last ResetForRetry ([flag_run]; ResetForRetry clears the alarm until the next
+    send), the loss-detection alarm is set — even with nothing outstanding. *)
+Theorem C06_client_timer_armed : forall validated ipn period maxPeriod rnd0 ops,
+  0 <= ipn -> Forall op_pos ops ->
+  let i := init true validated ipn period maxPeriod rnd0 in
+  flag_run i ops false = true ->
+  sPCAV (run i ops) = false ->
+  aTime (sAlarm (run i ops)) <> 0.
+Proof. exact client_timer_armed. Qed.
+Print Assumptions C06_client_timer_armed.
+
+Example C06_client_timer_nonvacuous :
+  let i := init true false 0 256 131072 100 in
+  let ops := [ (OSend 1 1000000000 (-1) [] [] 1200 false false 0, w_orc) ] in
+  Forall op_pos ops /\ flag_run i ops false = true /\ sPCAV (run i ops) = false /\
+  hasOutstandingCrypto (run i ops) = false /\ aTime (sAlarm (run i ops)) = 1200000000.
+Proof. exact client_timer_nonvacuous. Qed.
+Print Assumptions C06_client_timer_nonvacuous.
